@@ -302,11 +302,18 @@ class Ctx:
         if not rejected:
             self.__dict__.setdefault("_failed_controls", []).append(name)
 
+    def suspect(self, msg):
+        """A mirror / bookkeeping mismatch that means 'machinery out of date' on a tree that holds the property, but may equally
+        be the first symptom of a broken tree: the verdict is deferred to finish() (violations found -> they stand)."""
+        self.__dict__.setdefault("_failed_controls", []).append(msg)
+        self.note("suspect: " + msg[:300]) if hasattr(self, "note") else None
+
     # ------------------------------------------------------------------ finish
     def finish(self, rule, exhaustive=False, level="model_checking"):
         failed = self.__dict__.get("_failed_controls", [])
         if failed and not (self.violations or getattr(self, "nviol", 0)):
-            raise Machinery("negative control '%s' was not rejected: the lane cannot tell right from wrong" % failed[0])
+            raise Machinery(failed[0] if not failed[0].startswith("negative control") and " " in failed[0] and len(failed[0]) > 40
+                            else "negative control '%s' was not rejected: the lane cannot tell right from wrong" % failed[0])
         for c in self.cov["negative_controls"]:
             if not c["rejected"]:
                 c["undecided_because_violations_exist"] = True
